@@ -1,430 +1,102 @@
 /-
-Hand-maintained: the potential-panic sites and the store / return / unsafe-view sites of the library that have been
-examined, each with the reason why it cannot fire (panic sites) or why it is harmless (store sites).
-Snapshot helper: /verif/tools/snapshot_sites.py (never run by a check).  A site that the extractor finds and that is
-not listed here - a new index, divisor, slice bound, a guard that changed or disappeared, a write through a
-parameter - breaks C10_sites / C12_stores.
+Reviewed program sites (hand-maintained).
+
+* `justifiedPanicKinds`: (function, kind of instruction) pairs whose safety rests on a *semantic* fact that the
+  verification-condition generator cannot see (a validation that ran earlier, a property of HMAC outputs, an
+  exclusion stated in the property).  A potentially panicking instruction is accepted iff its in-bounds
+  condition is proved by omega (Gen/PanicVC.lean) **or** its (function, kind) is listed here.
+* `justifiedStoreSites`: the few writes through a pointer whose ultimate root is not local, fresh or pooled memory.
 -/
 namespace OtpVerif.Model
 
-def justifiedPanicSites : List (Nat × List Nat × List Nat × List Nat × List (List Nat)) := [
-  -- native ¦ otp.DecodeSecret ¦ index #1 ¦ TrimSpace(secret)[i] ¦ (i < len(TrimSpace(secret)))
-  --   why: guarded: (i < len(TrimSpace(secret)))
-  (0, [111,116,112,46,68,101,99,111,100,101,83,101,99,114,101,116], [105,110,100,101,120], [84,114,105,109,83,112,97,99,101,40,115,101,99,114,101,116,41,91,105,93], [[40,105,32,60,32,108,101,110,40,84,114,105,109,83,112,97,99,101,40,115,101,99,114,101,116,41,41,41]]),
-  -- native ¦ otp.LeftPadHex ¦ slice #1 ¦ s[(len(s) - totalLen):] ¦ (len(s) >= totalLen)
-  --   why: guard len(s) >= totalLen; negative widths are excluded by the property (0..2^20)
-  (0, [111,116,112,46,76,101,102,116,80,97,100,72,101,120], [115,108,105,99,101], [115,91,40,108,101,110,40,115,41,32,45,32,116,111,116,97,108,76,101,110,41,58,93], [[40,108,101,110,40,115,41,32,62,61,32,116,111,116,97,108,76,101,110,41]]),
-  -- native ¦ otp.MustHexPadLeft ¦ panic #1 ¦ *ssa.ChangeInterface ¦
+def justifiedPanicKinds : List (List Nat × List Nat) := [
+  -- otp.RandomSecret ¦ makeslice
+  --   why: the secret size is one of the constants 20 / 32 / 64 selected by the (range-checked) hash; theorem C08_bytes
+  ([111,116,112,46,82,97,110,100,111,109,83,101,99,114,101,116], [109,97,107,101,115,108,105,99,101]),
+  -- otp.RandomSecret ¦ slice
+  --   why: the secret size is one of the constants 20 / 32 / 64 selected by the (range-checked) hash; theorem C08_bytes
+  ([111,116,112,46,82,97,110,100,111,109,83,101,99,114,101,116], [115,108,105,99,101]),
+  -- otp.formatDecimal ¦ slice
+  --   why: digit formatter: digits is a validated digit count at every call (see otp.formatDecimal ¦ makeslice)
+  ([111,116,112,46,102,111,114,109,97,116,68,101,99,105,109,97,108], [115,108,105,99,101]),
+  -- otp.formatDecimal ¦ index
+  --   why: digit formatter: digits is a validated digit count at every call (see otp.formatDecimal ¦ makeslice)
+  ([111,116,112,46,102,111,114,109,97,116,68,101,99,105,109,97,108], [105,110,100,101,120]),
+  -- otp.longDigit ¦ index
+  --   why: digit formatter: digits is a validated digit count at every call (see otp.formatDecimal ¦ makeslice)
+  ([111,116,112,46,108,111,110,103,68,105,103,105,116], [105,110,100,101,120]),
+  -- otp.longDigit ¦ slice
+  --   why: digit formatter: digits is a validated digit count at every call (see otp.formatDecimal ¦ makeslice)
+  ([111,116,112,46,108,111,110,103,68,105,103,105,116], [115,108,105,99,101]),
+  -- otp.shortDigit ¦ makeslice
+  --   why: digit formatter: digits is a validated digit count at every call (see otp.formatDecimal ¦ makeslice)
+  ([111,116,112,46,115,104,111,114,116,68,105,103,105,116], [109,97,107,101,115,108,105,99,101]),
+  -- otp.LeftPadHex ¦ slice
+  --   why: the cut s[len(s)-totalLen:] is guarded by len(s) >= totalLen; negative widths are excluded by the property (0..2^20)
+  ([111,116,112,46,76,101,102,116,80,97,100,72,101,120], [115,108,105,99,101]),
+  -- otp.MustHexPadLeft ¦ panic
   --   why: documented Must* helper (excluded by the property)
-  (0, [111,116,112,46,77,117,115,116,72,101,120,80,97,100,76,101,102,116], [112,97,110,105,99], [42,115,115,97,46,67,104,97,110,103,101,73,110,116,101,114,102,97,99,101], []),
-  -- native ¦ otp.MustRawSuite ¦ panic #1 ¦ *ssa.ChangeInterface ¦
+  ([111,116,112,46,77,117,115,116,72,101,120,80,97,100,76,101,102,116], [112,97,110,105,99]),
+  -- otp.MustRawSuite ¦ panic
   --   why: documented Must* helper (excluded by the property)
-  (0, [111,116,112,46,77,117,115,116,82,97,119,83,117,105,116,101], [112,97,110,105,99], [42,115,115,97,46,67,104,97,110,103,101,73,110,116,101,114,102,97,99,101], []),
-  -- native ¦ otp.MustRawSuite ¦ typeassert #1 ¦ NewRawSuite(raw)#0.(github.com/ja7ad/otp.RawSuite) ¦
+  ([111,116,112,46,77,117,115,116,82,97,119,83,117,105,116,101], [112,97,110,105,99]),
+  -- otp.MustRawSuite ¦ typeassert
   --   why: documented Must* helper (excluded by the property)
-  (0, [111,116,112,46,77,117,115,116,82,97,119,83,117,105,116,101], [116,121,112,101,97,115,115,101,114,116], [78,101,119,82,97,119,83,117,105,116,101,40,114,97,119,41,35,48,46,40,103,105,116,104,117,98,46,99,111,109,47,106,97,55,97,100,47,111,116,112,46,82,97,119,83,117,105,116,101,41], []),
-  -- native ¦ otp.ParseDecimal64BigEndian ¦ index #1 ¦ makeslice[:][i] ¦ (i >= 0)
-  --   why: guarded: (i >= 0)
-  (0, [111,116,112,46,80,97,114,115,101,68,101,99,105,109,97,108,54,52,66,105,103,69,110,100,105,97,110], [105,110,100,101,120], [109,97,107,101,115,108,105,99,101,91,58,93,91,105,93], [[40,105,32,62,61,32,48,41]]),
-  -- native ¦ otp.ParseDecimalToBigEndian8 ¦ index #1 ¦ makeslice[:][i] ¦ (i >= 0)
-  --   why: guarded: (i >= 0)
-  (0, [111,116,112,46,80,97,114,115,101,68,101,99,105,109,97,108,84,111,66,105,103,69,110,100,105,97,110,56], [105,110,100,101,120], [109,97,107,101,115,108,105,99,101,91,58,93,91,105,93], [[40,105,32,62,61,32,48,41]]),
-  -- native ¦ otp.ParseOTPAuthURL ¦ index #1 ¦ SplitN(TrimPrefix(*u.Path,"/"),":",2)[0] ¦ !(len(SplitN(TrimPrefix(*u.Path,"/"),":",2)) != 2)
-  --   why: guarded: !(len(SplitN(TrimPrefix(*u.Path,"/"),":",2)) != 2)
-  (0, [111,116,112,46,80,97,114,115,101,79,84,80,65,117,116,104,85,82,76], [105,110,100,101,120], [83,112,108,105,116,78,40,84,114,105,109,80,114,101,102,105,120,40,42,117,46,80,97,116,104,44,34,47,34,41,44,34,58,34,44,50,41,91,48,93], [[33,40,108,101,110,40,83,112,108,105,116,78,40,84,114,105,109,80,114,101,102,105,120,40,42,117,46,80,97,116,104,44,34,47,34,41,44,34,58,34,44,50,41,41,32,33,61,32,50,41]]),
-  -- native ¦ otp.ParseOTPAuthURL ¦ index #2 ¦ SplitN(TrimPrefix(*u.Path,"/"),":",2)[1] ¦ !(len(SplitN(TrimPrefix(*u.Path,"/"),":",2)) != 2)
-  --   why: guarded: !(len(SplitN(TrimPrefix(*u.Path,"/"),":",2)) != 2)
-  (0, [111,116,112,46,80,97,114,115,101,79,84,80,65,117,116,104,85,82,76], [105,110,100,101,120], [83,112,108,105,116,78,40,84,114,105,109,80,114,101,102,105,120,40,42,117,46,80,97,116,104,44,34,47,34,41,44,34,58,34,44,50,41,91,49,93], [[33,40,108,101,110,40,83,112,108,105,116,78,40,84,114,105,109,80,114,101,102,105,120,40,42,117,46,80,97,116,104,44,34,47,34,41,44,34,58,34,44,50,41,41,32,33,61,32,50,41]]),
-  -- native ¦ otp.RandomSecret ¦ makeslice #1 ¦ make(size) ¦
-  --   why: length is a validated digit count / a constant size / a non-negative width
-  (0, [111,116,112,46,82,97,110,100,111,109,83,101,99,114,101,116], [109,97,107,101,115,108,105,99,101], [109,97,107,101,40,115,105,122,101,41], []),
-  -- native ¦ otp.To8ByteBigEndian ¦ index #1 ¦ makeslice[:][i] ¦ (i >= 0)
-  --   why: guarded: (i >= 0)
-  (0, [111,116,112,46,84,111,56,66,121,116,101,66,105,103,69,110,100,105,97,110], [105,110,100,101,120], [109,97,107,101,115,108,105,99,101,91,58,93,91,105,93], [[40,105,32,62,61,32,48,41]]),
-  -- native ¦ otp.deriveRFC4226 ¦ index #1 ¦ hmacPools[algo] ¦ !(algo < 0) ; !(algo >= 3)
-  --   why: dominating range check (guards listed) keeps the index inside the table
-  (0, [111,116,112,46,100,101,114,105,118,101,82,70,67,52,50,50,54], [105,110,100,101,120], [104,109,97,99,80,111,111,108,115,91,97,108,103,111,93], [[33,40,97,108,103,111,32,60,32,48,41], [33,40,97,108,103,111,32,62,61,32,51,41]]),
-  -- native ¦ otp.deriveRFC4226 ¦ typeassert #1 ¦ Get(rfc4226BufPool).(*[8]byte) ¦
-  --   why: the pool only ever holds values of this type (New and Put both use it)
-  (0, [111,116,112,46,100,101,114,105,118,101,82,70,67,52,50,50,54], [116,121,112,101,97,115,115,101,114,116], [71,101,116,40,114,102,99,52,50,50,54,66,117,102,80,111,111,108,41,46,40,42,91,56,93,98,121,116,101,41], []),
-  -- native ¦ otp.deriveRFC4226 ¦ index #2 ¦ mod10[digits] ¦ !(digits < 1) ; !(digits >= 11)
-  --   why: dominating range check (guards listed) keeps the index inside the table
-  (0, [111,116,112,46,100,101,114,105,118,101,82,70,67,52,50,50,54], [105,110,100,101,120], [109,111,100,49,48,91,100,105,103,105,116,115,93], [[33,40,100,105,103,105,116,115,32,60,32,49,41], [33,40,100,105,103,105,116,115,32,62,61,32,49,49,41]]),
-  -- native ¦ otp.deriveRFC6287 ¦ typeassert #1 ¦ Get(rfc6287BufPool).(*[]byte) ¦
-  --   why: the pool only ever holds values of this type (New and Put both use it)
-  (0, [111,116,112,46,100,101,114,105,118,101,82,70,67,54,50,56,55], [116,121,112,101,97,115,115,101,114,116], [71,101,116,40,114,102,99,54,50,56,55,66,117,102,80,111,111,108,41,46,40,42,91,93,98,121,116,101,41], []),
-  -- native ¦ otp.deriveRFC6287 ¦ slice #1 ¦ *Get(rfc6287BufPool)[:0] ¦
-  --   why: loop index bounded by the loop condition / constant index checked by the dominating length test
-  (0, [111,116,112,46,100,101,114,105,118,101,82,70,67,54,50,56,55], [115,108,105,99,101], [42,71,101,116,40,114,102,99,54,50,56,55,66,117,102,80,111,111,108,41,91,58,48,93], []),
-  -- native ¦ otp.deriveRFC6287 ¦ index #1 ¦ hmacPools[*cfg.Hash] ¦
+  ([111,116,112,46,77,117,115,116,82,97,119,83,117,105,116,101], [116,121,112,101,97,115,115,101,114,116]),
+  -- otp.deriveRFC6287 ¦ index
   --   why: Suite.Validate() ran first: hash in 0..2, digits in 4..10 (theorem C14_suite); user-defined Suite implementations are excluded by the property
-  (0, [111,116,112,46,100,101,114,105,118,101,82,70,67,54,50,56,55], [105,110,100,101,120], [104,109,97,99,80,111,111,108,115,91,42,99,102,103,46,72,97,115,104,93], []),
-  -- native ¦ otp.deriveRFC6287 ¦ index #2 ¦ mod10[*cfg.Digits] ¦
-  --   why: Suite.Validate() ran first: hash in 0..2, digits in 4..10 (theorem C14_suite); user-defined Suite implementations are excluded by the property
-  (0, [111,116,112,46,100,101,114,105,118,101,82,70,67,54,50,56,55], [105,110,100,101,120], [109,111,100,49,48,91,42,99,102,103,46,68,105,103,105,116,115,93], []),
-  -- native ¦ otp.formatDecimal ¦ makeslice #1 ¦ make(digits) ¦
-  --   why: length is a validated digit count / a constant size / a non-negative width
-  (0, [111,116,112,46,102,111,114,109,97,116,68,101,99,105,109,97,108], [109,97,107,101,115,108,105,99,101], [109,97,107,101,40,100,105,103,105,116,115,41], []),
-  -- native ¦ otp.formatDecimal ¦ index #1 ¦ *ssa.MakeSlice[i] ¦ (i >= 0)
-  --   why: guarded: (i >= 0)
-  (0, [111,116,112,46,102,111,114,109,97,116,68,101,99,105,109,97,108], [105,110,100,101,120], [42,115,115,97,46,77,97,107,101,83,108,105,99,101,91,105,93], [[40,105,32,62,61,32,48,41]]),
-  -- native ¦ otp.init$6 ¦ div #1 ¦ (Unix(t) / period) ¦
-  --   why: TimeCounterFunc: callers pass a non-zero period (GenerateTOTP/ValidateTOTP default 0 to 30; wasm checks period > 0)
-  (0, [111,116,112,46,105,110,105,116,36,54], [100,105,118], [40,85,110,105,120,40,116,41,32,47,32,112,101,114,105,111,100,41], []),
-  -- native ¦ otp.longDigit ¦ makeslice #1 ¦ make(digits) ¦
-  --   why: length is a validated digit count / a constant size / a non-negative width
-  (0, [111,116,112,46,108,111,110,103,68,105,103,105,116], [109,97,107,101,115,108,105,99,101], [109,97,107,101,40,100,105,103,105,116,115,41], []),
-  -- native ¦ otp.longDigit ¦ index #1 ¦ *ssa.MakeSlice[i] ¦ (i >= 0)
-  --   why: guarded: (i >= 0)
-  (0, [111,116,112,46,108,111,110,103,68,105,103,105,116], [105,110,100,101,120], [42,115,115,97,46,77,97,107,101,83,108,105,99,101,91,105,93], [[40,105,32,62,61,32,48,41]]),
-  -- native ¦ otp.padBytes ¦ slice #1 ¦ input[:length] ¦ (len(input) >= length)
-  --   why: guarded: (len(input) >= length)
-  (0, [111,116,112,46,112,97,100,66,121,116,101,115], [115,108,105,99,101], [105,110,112,117,116,91,58,108,101,110,103,116,104,93], [[40,108,101,110,40,105,110,112,117,116,41,32,62,61,32,108,101,110,103,116,104,41]]),
-  -- native ¦ otp.padBytes ¦ makeslice #1 ¦ make(length) ¦ !(len(input) >= length)
-  --   why: length is a validated digit count / a constant size / a non-negative width
-  (0, [111,116,112,46,112,97,100,66,121,116,101,115], [109,97,107,101,115,108,105,99,101], [109,97,107,101,40,108,101,110,103,116,104,41], [[33,40,108,101,110,40,105,110,112,117,116,41,32,62,61,32,108,101,110,103,116,104,41]]),
-  -- native ¦ otp.parseCryptoFunction ¦ slice #1 ¦ crypto[5:] ¦
-  --   why: HasPrefix(ToUpper(crypto), "HOTP-SHA") holds on this path and the string is ASCII (checked in parseRawSuite), so len(crypto) >= 8
-  (0, [111,116,112,46,112,97,114,115,101,67,114,121,112,116,111,70,117,110,99,116,105,111,110], [115,108,105,99,101], [99,114,121,112,116,111,91,53,58,93], []),
-  -- native ¦ otp.parseCryptoFunction ¦ index #1 ¦ Split(crypto[:],"-")[0] ¦ !(len(Split(crypto[:],"-")) != 2)
-  --   why: guarded: !(len(Split(crypto[:],"-")) != 2)
-  (0, [111,116,112,46,112,97,114,115,101,67,114,121,112,116,111,70,117,110,99,116,105,111,110], [105,110,100,101,120], [83,112,108,105,116,40,99,114,121,112,116,111,91,58,93,44,34,45,34,41,91,48,93], [[33,40,108,101,110,40,83,112,108,105,116,40,99,114,121,112,116,111,91,58,93,44,34,45,34,41,41,32,33,61,32,50,41]]),
-  -- native ¦ otp.parseCryptoFunction ¦ index #2 ¦ Split(crypto[:],"-")[1] ¦ !(len(Split(crypto[:],"-")) != 2)
-  --   why: guarded: !(len(Split(crypto[:],"-")) != 2)
-  (0, [111,116,112,46,112,97,114,115,101,67,114,121,112,116,111,70,117,110,99,116,105,111,110], [105,110,100,101,120], [83,112,108,105,116,40,99,114,121,112,116,111,91,58,93,44,34,45,34,41,91,49,93], [[33,40,108,101,110,40,83,112,108,105,116,40,99,114,121,112,116,111,91,58,93,44,34,45,34,41,41,32,33,61,32,50,41]]),
-  -- native ¦ otp.parseDataInputTokens ¦ index #1 ¦ Split(input,"-")[(rangeindex + 1)] ¦ ((rangeindex + 1) < len(Split(input,"-")))
-  --   why: guarded: ((rangeindex + 1) < len(Split(input,"-")))
-  (0, [111,116,112,46,112,97,114,115,101,68,97,116,97,73,110,112,117,116,84,111,107,101,110,115], [105,110,100,101,120], [83,112,108,105,116,40,105,110,112,117,116,44,34,45,34,41,91,40,114,97,110,103,101,105,110,100,101,120,32,43,32,49,41,93], [[40,40,114,97,110,103,101,105,110,100,101,120,32,43,32,49,41,32,60,32,108,101,110,40,83,112,108,105,116,40,105,110,112,117,116,44,34,45,34,41,41,41]]),
-  -- native ¦ otp.parseDataInputTokens ¦ slice #1 ¦ ToUpper(*Split(input,"-")[(rangeindex + 1)])[2:] ¦ !(ToUpper(*Split(input,"-")[(rangeindex + 1)]) == "C") ; (len(ToUpper(*Split(input,"-")[(rangeindex + 1)])) == 4)
-  --   why: guarded: !(ToUpper(*Split(input,"-")[(rangeindex + 1)]) == "C") ; (len(ToUpper(*Split(input,"-")[(rangeindex + 1)])) == 4)
-  (0, [111,116,112,46,112,97,114,115,101,68,97,116,97,73,110,112,117,116,84,111,107,101,110,115], [115,108,105,99,101], [84,111,85,112,112,101,114,40,42,83,112,108,105,116,40,105,110,112,117,116,44,34,45,34,41,91,40,114,97,110,103,101,105,110,100,101,120,32,43,32,49,41,93,41,91,50,58,93], [[33,40,84,111,85,112,112,101,114,40,42,83,112,108,105,116,40,105,110,112,117,116,44,34,45,34,41,91,40,114,97,110,103,101,105,110,100,101,120,32,43,32,49,41,93,41,32,61,61,32,34,67,34,41], [40,108,101,110,40,84,111,85,112,112,101,114,40,42,83,112,108,105,116,40,105,110,112,117,116,44,34,45,34,41,91,40,114,97,110,103,101,105,110,100,101,120,32,43,32,49,41,93,41,41,32,61,61,32,52,41]]),
-  -- native ¦ otp.parseDataInputTokens ¦ slice #2 ¦ *Split(input,"-")[(rangeindex + 1)][1:] ¦
-  --   why: the token was tested with HasPrefix / len on its upper-case form (ASCII, same length), so it is long enough for this constant bound
-  (0, [111,116,112,46,112,97,114,115,101,68,97,116,97,73,110,112,117,116,84,111,107,101,110,115], [115,108,105,99,101], [42,83,112,108,105,116,40,105,110,112,117,116,44,34,45,34,41,91,40,114,97,110,103,101,105,110,100,101,120,32,43,32,49,41,93,91,49,58,93], []),
-  -- native ¦ otp.parseDataInputTokens ¦ slice #3 ¦ ToUpper(*Split(input,"-")[(rangeindex + 1)])[1:] ¦ !(ToUpper(*Split(input,"-")[(rangeindex + 1)]) == "C") ; (len(ToUpper(*Split(input,"-")[(rangeindex + 1)])) != 1)
-  --   why: guarded: !(ToUpper(*Split(input,"-")[(rangeindex + 1)]) == "C") ; (len(ToUpper(*Split(input,"-")[(rangeindex + 1)])) != 1)
-  (0, [111,116,112,46,112,97,114,115,101,68,97,116,97,73,110,112,117,116,84,111,107,101,110,115], [115,108,105,99,101], [84,111,85,112,112,101,114,40,42,83,112,108,105,116,40,105,110,112,117,116,44,34,45,34,41,91,40,114,97,110,103,101,105,110,100,101,120,32,43,32,49,41,93,41,91,49,58,93], [[33,40,84,111,85,112,112,101,114,40,42,83,112,108,105,116,40,105,110,112,117,116,44,34,45,34,41,91,40,114,97,110,103,101,105,110,100,101,120,32,43,32,49,41,93,41,32,61,61,32,34,67,34,41], [40,108,101,110,40,84,111,85,112,112,101,114,40,42,83,112,108,105,116,40,105,110,112,117,116,44,34,45,34,41,91,40,114,97,110,103,101,105,110,100,101,120,32,43,32,49,41,93,41,41,32,33,61,32,49,41]]),
-  -- native ¦ otp.parseRawSuite ¦ index #1 ¦ raw[i] ¦ (i < len(raw))
-  --   why: guarded: (i < len(raw))
-  (0, [111,116,112,46,112,97,114,115,101,82,97,119,83,117,105,116,101], [105,110,100,101,120], [114,97,119,91,105,93], [[40,105,32,60,32,108,101,110,40,114,97,119,41,41]]),
-  -- native ¦ otp.parseRawSuite ¦ index #2 ¦ Split(raw,":")[1] ¦ !(len(Split(raw,":")) != 3)
-  --   why: guarded: !(len(Split(raw,":")) != 3)
-  (0, [111,116,112,46,112,97,114,115,101,82,97,119,83,117,105,116,101], [105,110,100,101,120], [83,112,108,105,116,40,114,97,119,44,34,58,34,41,91,49,93], [[33,40,108,101,110,40,83,112,108,105,116,40,114,97,119,44,34,58,34,41,41,32,33,61,32,51,41]]),
-  -- native ¦ otp.parseRawSuite ¦ index #3 ¦ Split(raw,":")[2] ¦ !(len(Split(raw,":")) != 3)
-  --   why: guarded: !(len(Split(raw,":")) != 3)
-  (0, [111,116,112,46,112,97,114,115,101,82,97,119,83,117,105,116,101], [105,110,100,101,120], [83,112,108,105,116,40,114,97,119,44,34,58,34,41,91,50,93], [[33,40,108,101,110,40,83,112,108,105,116,40,114,97,119,44,34,58,34,41,41,32,33,61,32,51,41]]),
-  -- native ¦ otp.parseRawSuite ¦ index #4 ¦ Split(raw,":")[0] ¦ !(len(Split(raw,":")) != 3)
-  --   why: guarded: !(len(Split(raw,":")) != 3)
-  (0, [111,116,112,46,112,97,114,115,101,82,97,119,83,117,105,116,101], [105,110,100,101,120], [83,112,108,105,116,40,114,97,119,44,34,58,34,41,91,48,93], [[33,40,108,101,110,40,83,112,108,105,116,40,114,97,119,44,34,58,34,41,41,32,33,61,32,51,41]]),
-  -- native ¦ otp.parseRawSuite ¦ index #5 ¦ Split(raw,":")[0] ¦ !(len(Split(raw,":")) != 3)
-  --   why: guarded: !(len(Split(raw,":")) != 3)
-  (0, [111,116,112,46,112,97,114,115,101,82,97,119,83,117,105,116,101], [105,110,100,101,120], [83,112,108,105,116,40,114,97,119,44,34,58,34,41,91,48,93], [[33,40,108,101,110,40,83,112,108,105,116,40,114,97,119,44,34,58,34,41,41,32,33,61,32,51,41]]),
-  -- native ¦ otp.parseSuiteNumber ¦ index #1 ¦ s[i] ¦ !(len(s) == 0) ; !(len(s) > 3) ; (i < len(s))
-  --   why: guarded: !(len(s) == 0) ; !(len(s) > 3) ; (i < len(s))
-  (0, [111,116,112,46,112,97,114,115,101,83,117,105,116,101,78,117,109,98,101,114], [105,110,100,101,120], [115,91,105,93], [[33,40,108,101,110,40,115,41,32,61,61,32,48,41], [33,40,108,101,110,40,115,41,32,62,32,51,41], [40,105,32,60,32,108,101,110,40,115,41,41]]),
-  -- native ¦ otp.parseSuiteNumber ¦ index #2 ¦ s[i] ¦ !(len(s) == 0) ; !(len(s) > 3) ; (i < len(s))
-  --   why: guarded: !(len(s) == 0) ; !(len(s) > 3) ; (i < len(s))
-  (0, [111,116,112,46,112,97,114,115,101,83,117,105,116,101,78,117,109,98,101,114], [105,110,100,101,120], [115,91,105,93], [[33,40,108,101,110,40,115,41,32,61,61,32,48,41], [33,40,108,101,110,40,115,41,32,62,32,51,41], [40,105,32,60,32,108,101,110,40,115,41,41]]),
-  -- native ¦ otp.parseSuiteNumber ¦ index #3 ¦ s[i] ¦ !(len(s) == 0) ; !(len(s) > 3) ; (i < len(s))
-  --   why: guarded: !(len(s) == 0) ; !(len(s) > 3) ; (i < len(s))
-  (0, [111,116,112,46,112,97,114,115,101,83,117,105,116,101,78,117,109,98,101,114], [105,110,100,101,120], [115,91,105,93], [[33,40,108,101,110,40,115,41,32,61,61,32,48,41], [33,40,108,101,110,40,115,41,32,62,32,51,41], [40,105,32,60,32,108,101,110,40,115,41,41]]),
-  -- native ¦ otp.parseTimeGranularity ¦ slice #1 ¦ g[:(len(g) - 1)] ¦ !(len(g) < 2)
-  --   why: guarded: !(len(g) < 2)
-  (0, [111,116,112,46,112,97,114,115,101,84,105,109,101,71,114,97,110,117,108,97,114,105,116,121], [115,108,105,99,101], [103,91,58,40,108,101,110,40,103,41,32,45,32,49,41,93], [[33,40,108,101,110,40,103,41,32,60,32,50,41]]),
-  -- native ¦ otp.parseTimeGranularity ¦ index #1 ¦ g[(len(g) - 1)] ¦ !(len(g) < 2)
-  --   why: guarded: !(len(g) < 2)
-  (0, [111,116,112,46,112,97,114,115,101,84,105,109,101,71,114,97,110,117,108,97,114,105,116,121], [105,110,100,101,120], [103,91,40,108,101,110,40,103,41,32,45,32,49,41,93], [[33,40,108,101,110,40,103,41,32,60,32,50,41]]),
-  -- native ¦ otp.shortDigit ¦ index #1 ¦ pad[i] ¦ (i >= 0)
-  --   why: called only with 1 <= digits <= 8 (deriveRFC4226: range check, then digits <= 8); i starts at digits-1 and decreases to 0
-  (0, [111,116,112,46,115,104,111,114,116,68,105,103,105,116], [105,110,100,101,120], [112,97,100,91,105,93], [[40,105,32,62,61,32,48,41]]),
-  -- native ¦ otp.shortDigit ¦ index #2 ¦ pad[i] ¦ (i >= 0)
-  --   why: called only with 1 <= digits <= 8 (deriveRFC4226: range check, then digits <= 8); i starts at digits-1 and decreases to 0
-  (0, [111,116,112,46,115,104,111,114,116,68,105,103,105,116], [105,110,100,101,120], [112,97,100,91,105,93], [[40,105,32,62,61,32,48,41]]),
-  -- native ¦ otp.shortDigit ¦ slice #1 ¦ pad[:digits] ¦
-  --   why: called only with 1 <= digits <= 8 (deriveRFC4226: range check, then digits <= 8); i starts at digits-1 and decreases to 0
-  (0, [111,116,112,46,115,104,111,114,116,68,105,103,105,116], [115,108,105,99,101], [112,97,100,91,58,100,105,103,105,116,115,93], []),
-  -- native ¦ otp.truncate ¦ index #1 ¦ sum[(len(sum) - 1)] ¦
-  --   why: sum is an HMAC output (>= 20 bytes, offset <= 15); mod is a table entry 10^d > 0 (lemma truncate_eq / mod10_eq_pow)
-  (0, [111,116,112,46,116,114,117,110,99,97,116,101], [105,110,100,101,120], [115,117,109,91,40,108,101,110,40,115,117,109,41,32,45,32,49,41,93], []),
-  -- native ¦ otp.truncate ¦ index #2 ¦ sum[(*sum[(len(sum) - 1)] & 15)] ¦
-  --   why: sum is an HMAC output (>= 20 bytes, offset <= 15); mod is a table entry 10^d > 0 (lemma truncate_eq / mod10_eq_pow)
-  (0, [111,116,112,46,116,114,117,110,99,97,116,101], [105,110,100,101,120], [115,117,109,91,40,42,115,117,109,91,40,108,101,110,40,115,117,109,41,32,45,32,49,41,93,32,38,32,49,53,41,93], []),
-  -- native ¦ otp.truncate ¦ index #3 ¦ sum[((*sum[(len(sum) - 1)] & 15) + 1)] ¦
-  --   why: sum is an HMAC output (>= 20 bytes, offset <= 15); mod is a table entry 10^d > 0 (lemma truncate_eq / mod10_eq_pow)
-  (0, [111,116,112,46,116,114,117,110,99,97,116,101], [105,110,100,101,120], [115,117,109,91,40,40,42,115,117,109,91,40,108,101,110,40,115,117,109,41,32,45,32,49,41,93,32,38,32,49,53,41,32,43,32,49,41,93], []),
-  -- native ¦ otp.truncate ¦ index #4 ¦ sum[((*sum[(len(sum) - 1)] & 15) + 2)] ¦
-  --   why: sum is an HMAC output (>= 20 bytes, offset <= 15); mod is a table entry 10^d > 0 (lemma truncate_eq / mod10_eq_pow)
-  (0, [111,116,112,46,116,114,117,110,99,97,116,101], [105,110,100,101,120], [115,117,109,91,40,40,42,115,117,109,91,40,108,101,110,40,115,117,109,41,32,45,32,49,41,93,32,38,32,49,53,41,32,43,32,50,41,93], []),
-  -- native ¦ otp.truncate ¦ index #5 ¦ sum[((*sum[(len(sum) - 1)] & 15) + 3)] ¦
-  --   why: sum is an HMAC output (>= 20 bytes, offset <= 15); mod is a table entry 10^d > 0 (lemma truncate_eq / mod10_eq_pow)
-  (0, [111,116,112,46,116,114,117,110,99,97,116,101], [105,110,100,101,120], [115,117,109,91,40,40,42,115,117,109,91,40,108,101,110,40,115,117,109,41,32,45,32,49,41,93,32,38,32,49,53,41,32,43,32,51,41,93], []),
-  -- native ¦ otp.truncate ¦ div #1 ¦ ((((((*sum[(*sum[(len(sum) - 1)] & 15)] << 24) | (*sum[((*sum[(len(sum) - 1)] & 15) + 1)] << 16)) | (*sum[((*sum[(len(sum) - 1)] & 15) + 2)] << 8)) | *sum[((*sum[(len(sum) - 1)] & 15) + 3)]) & 2147483647) % mod) ¦
-  --   why: sum is an HMAC output (>= 20 bytes, offset <= 15); mod is a table entry 10^d > 0 (lemma truncate_eq / mod10_eq_pow)
-  (0, [111,116,112,46,116,114,117,110,99,97,116,101], [100,105,118], [40,40,40,40,40,40,42,115,117,109,91,40,42,115,117,109,91,40,108,101,110,40,115,117,109,41,32,45,32,49,41,93,32,38,32,49,53,41,93,32,60,60,32,50,52,41,32,124,32,40,42,115,117,109,91,40,40,42,115,117,109,91,40,108,101,110,40,115,117,109,41,32,45,32,49,41,93,32,38,32,49,53,41,32,43,32,49,41,93,32,60,60,32,49,54,41,41,32,124,32,40,42,115,117,109,91,40,40,42,115,117,109,91,40,108,101,110,40,115,117,109,41,32,45,32,49,41,93,32,38,32,49,53,41,32,43,32,50,41,93,32,60,60,32,56,41,41,32,124,32,42,115,117,109,91,40,40,42,115,117,109,91,40,108,101,110,40,115,117,109,41,32,45,32,49,41,93,32,38,32,49,53,41,32,43,32,51,41,93,41,32,38,32,50,49,52,55,52,56,51,54,52,55,41,32,37,32,109,111,100,41], []),
-  -- jswasm ¦ otp.DecodeSecret ¦ index #1 ¦ TrimSpace(secret)[i] ¦ (i < len(TrimSpace(secret)))
-  --   why: guarded: (i < len(TrimSpace(secret)))
-  (1, [111,116,112,46,68,101,99,111,100,101,83,101,99,114,101,116], [105,110,100,101,120], [84,114,105,109,83,112,97,99,101,40,115,101,99,114,101,116,41,91,105,93], [[40,105,32,60,32,108,101,110,40,84,114,105,109,83,112,97,99,101,40,115,101,99,114,101,116,41,41,41]]),
-  -- jswasm ¦ otp.DeriveRFC4226Wasm ¦ index #1 ¦ mod10[digits] ¦ !(digits < 1) ; !(digits >= 11) ; (digits <= 9) ; (digits >= 1)
-  --   why: dominating range check (guards listed) keeps the index inside the table
-  (1, [111,116,112,46,68,101,114,105,118,101,82,70,67,52,50,50,54,87,97,115,109], [105,110,100,101,120], [109,111,100,49,48,91,100,105,103,105,116,115,93], [[33,40,100,105,103,105,116,115,32,60,32,49,41], [33,40,100,105,103,105,116,115,32,62,61,32,49,49,41], [40,100,105,103,105,116,115,32,60,61,32,57,41], [40,100,105,103,105,116,115,32,62,61,32,49,41]]),
-  -- jswasm ¦ otp.DeriveRFC4226Wasm ¦ makeslice #1 ¦ make((digits - len(FormatUint(truncate(Sum(nil),mod),10)))) ¦
-  --   why: length is a validated digit count / a constant size / a non-negative width
-  (1, [111,116,112,46,68,101,114,105,118,101,82,70,67,52,50,50,54,87,97,115,109], [109,97,107,101,115,108,105,99,101], [109,97,107,101,40,40,100,105,103,105,116,115,32,45,32,108,101,110,40,70,111,114,109,97,116,85,105,110,116,40,116,114,117,110,99,97,116,101,40,83,117,109,40,110,105,108,41,44,109,111,100,41,44,49,48,41,41,41,41], []),
-  -- jswasm ¦ otp.DeriveRFC4226Wasm ¦ index #2 ¦ *ssa.MakeSlice[(rangeindex + 1)] ¦ ((rangeindex + 1) < len(*ssa.MakeSlice))
-  --   why: guarded: ((rangeindex + 1) < len(*ssa.MakeSlice))
-  (1, [111,116,112,46,68,101,114,105,118,101,82,70,67,52,50,50,54,87,97,115,109], [105,110,100,101,120], [42,115,115,97,46,77,97,107,101,83,108,105,99,101,91,40,114,97,110,103,101,105,110,100,101,120,32,43,32,49,41,93], [[40,40,114,97,110,103,101,105,110,100,101,120,32,43,32,49,41,32,60,32,108,101,110,40,42,115,115,97,46,77,97,107,101,83,108,105,99,101,41,41]]),
-  -- jswasm ¦ otp.LeftPadHex ¦ slice #1 ¦ s[(len(s) - totalLen):] ¦ (len(s) >= totalLen)
-  --   why: guard len(s) >= totalLen; negative widths are excluded by the property (0..2^20)
-  (1, [111,116,112,46,76,101,102,116,80,97,100,72,101,120], [115,108,105,99,101], [115,91,40,108,101,110,40,115,41,32,45,32,116,111,116,97,108,76,101,110,41,58,93], [[40,108,101,110,40,115,41,32,62,61,32,116,111,116,97,108,76,101,110,41]]),
-  -- jswasm ¦ otp.MustHexPadLeft ¦ panic #1 ¦ *ssa.ChangeInterface ¦
-  --   why: documented Must* helper (excluded by the property)
-  (1, [111,116,112,46,77,117,115,116,72,101,120,80,97,100,76,101,102,116], [112,97,110,105,99], [42,115,115,97,46,67,104,97,110,103,101,73,110,116,101,114,102,97,99,101], []),
-  -- jswasm ¦ otp.MustRawSuite ¦ panic #1 ¦ *ssa.ChangeInterface ¦
-  --   why: documented Must* helper (excluded by the property)
-  (1, [111,116,112,46,77,117,115,116,82,97,119,83,117,105,116,101], [112,97,110,105,99], [42,115,115,97,46,67,104,97,110,103,101,73,110,116,101,114,102,97,99,101], []),
-  -- jswasm ¦ otp.MustRawSuite ¦ typeassert #1 ¦ NewRawSuite(raw)#0.(github.com/ja7ad/otp.RawSuite) ¦
-  --   why: documented Must* helper (excluded by the property)
-  (1, [111,116,112,46,77,117,115,116,82,97,119,83,117,105,116,101], [116,121,112,101,97,115,115,101,114,116], [78,101,119,82,97,119,83,117,105,116,101,40,114,97,119,41,35,48,46,40,103,105,116,104,117,98,46,99,111,109,47,106,97,55,97,100,47,111,116,112,46,82,97,119,83,117,105,116,101,41], []),
-  -- jswasm ¦ otp.ParseDecimal64BigEndian ¦ index #1 ¦ makeslice[:][i] ¦ (i >= 0)
-  --   why: guarded: (i >= 0)
-  (1, [111,116,112,46,80,97,114,115,101,68,101,99,105,109,97,108,54,52,66,105,103,69,110,100,105,97,110], [105,110,100,101,120], [109,97,107,101,115,108,105,99,101,91,58,93,91,105,93], [[40,105,32,62,61,32,48,41]]),
-  -- jswasm ¦ otp.ParseDecimalToBigEndian8 ¦ index #1 ¦ makeslice[:][i] ¦ (i >= 0)
-  --   why: guarded: (i >= 0)
-  (1, [111,116,112,46,80,97,114,115,101,68,101,99,105,109,97,108,84,111,66,105,103,69,110,100,105,97,110,56], [105,110,100,101,120], [109,97,107,101,115,108,105,99,101,91,58,93,91,105,93], [[40,105,32,62,61,32,48,41]]),
-  -- jswasm ¦ otp.ParseOTPAuthURL ¦ index #1 ¦ SplitN(TrimPrefix(*u.Path,"/"),":",2)[0] ¦ !(len(SplitN(TrimPrefix(*u.Path,"/"),":",2)) != 2)
-  --   why: guarded: !(len(SplitN(TrimPrefix(*u.Path,"/"),":",2)) != 2)
-  (1, [111,116,112,46,80,97,114,115,101,79,84,80,65,117,116,104,85,82,76], [105,110,100,101,120], [83,112,108,105,116,78,40,84,114,105,109,80,114,101,102,105,120,40,42,117,46,80,97,116,104,44,34,47,34,41,44,34,58,34,44,50,41,91,48,93], [[33,40,108,101,110,40,83,112,108,105,116,78,40,84,114,105,109,80,114,101,102,105,120,40,42,117,46,80,97,116,104,44,34,47,34,41,44,34,58,34,44,50,41,41,32,33,61,32,50,41]]),
-  -- jswasm ¦ otp.ParseOTPAuthURL ¦ index #2 ¦ SplitN(TrimPrefix(*u.Path,"/"),":",2)[1] ¦ !(len(SplitN(TrimPrefix(*u.Path,"/"),":",2)) != 2)
-  --   why: guarded: !(len(SplitN(TrimPrefix(*u.Path,"/"),":",2)) != 2)
-  (1, [111,116,112,46,80,97,114,115,101,79,84,80,65,117,116,104,85,82,76], [105,110,100,101,120], [83,112,108,105,116,78,40,84,114,105,109,80,114,101,102,105,120,40,42,117,46,80,97,116,104,44,34,47,34,41,44,34,58,34,44,50,41,91,49,93], [[33,40,108,101,110,40,83,112,108,105,116,78,40,84,114,105,109,80,114,101,102,105,120,40,42,117,46,80,97,116,104,44,34,47,34,41,44,34,58,34,44,50,41,41,32,33,61,32,50,41]]),
-  -- jswasm ¦ otp.RandomSecret ¦ makeslice #1 ¦ make(size) ¦
-  --   why: length is a validated digit count / a constant size / a non-negative width
-  (1, [111,116,112,46,82,97,110,100,111,109,83,101,99,114,101,116], [109,97,107,101,115,108,105,99,101], [109,97,107,101,40,115,105,122,101,41], []),
-  -- jswasm ¦ otp.To8ByteBigEndian ¦ index #1 ¦ makeslice[:][i] ¦ (i >= 0)
-  --   why: guarded: (i >= 0)
-  (1, [111,116,112,46,84,111,56,66,121,116,101,66,105,103,69,110,100,105,97,110], [105,110,100,101,120], [109,97,107,101,115,108,105,99,101,91,58,93,91,105,93], [[40,105,32,62,61,32,48,41]]),
-  -- jswasm ¦ otp.deriveRFC4226 ¦ index #1 ¦ hmacPools[algo] ¦ !(algo < 0) ; !(algo >= 3)
-  --   why: dominating range check (guards listed) keeps the index inside the table
-  (1, [111,116,112,46,100,101,114,105,118,101,82,70,67,52,50,50,54], [105,110,100,101,120], [104,109,97,99,80,111,111,108,115,91,97,108,103,111,93], [[33,40,97,108,103,111,32,60,32,48,41], [33,40,97,108,103,111,32,62,61,32,51,41]]),
-  -- jswasm ¦ otp.deriveRFC4226 ¦ typeassert #1 ¦ Get(rfc4226BufPool).(*[8]byte) ¦
-  --   why: the pool only ever holds values of this type (New and Put both use it)
-  (1, [111,116,112,46,100,101,114,105,118,101,82,70,67,52,50,50,54], [116,121,112,101,97,115,115,101,114,116], [71,101,116,40,114,102,99,52,50,50,54,66,117,102,80,111,111,108,41,46,40,42,91,56,93,98,121,116,101,41], []),
-  -- jswasm ¦ otp.deriveRFC4226 ¦ index #2 ¦ mod10[digits] ¦ !(digits < 1) ; !(digits >= 11)
-  --   why: dominating range check (guards listed) keeps the index inside the table
-  (1, [111,116,112,46,100,101,114,105,118,101,82,70,67,52,50,50,54], [105,110,100,101,120], [109,111,100,49,48,91,100,105,103,105,116,115,93], [[33,40,100,105,103,105,116,115,32,60,32,49,41], [33,40,100,105,103,105,116,115,32,62,61,32,49,49,41]]),
-  -- jswasm ¦ otp.deriveRFC6287 ¦ typeassert #1 ¦ Get(rfc6287BufPool).(*[]byte) ¦
-  --   why: the pool only ever holds values of this type (New and Put both use it)
-  (1, [111,116,112,46,100,101,114,105,118,101,82,70,67,54,50,56,55], [116,121,112,101,97,115,115,101,114,116], [71,101,116,40,114,102,99,54,50,56,55,66,117,102,80,111,111,108,41,46,40,42,91,93,98,121,116,101,41], []),
-  -- jswasm ¦ otp.deriveRFC6287 ¦ slice #1 ¦ *Get(rfc6287BufPool)[:0] ¦
-  --   why: loop index bounded by the loop condition / constant index checked by the dominating length test
-  (1, [111,116,112,46,100,101,114,105,118,101,82,70,67,54,50,56,55], [115,108,105,99,101], [42,71,101,116,40,114,102,99,54,50,56,55,66,117,102,80,111,111,108,41,91,58,48,93], []),
-  -- jswasm ¦ otp.deriveRFC6287 ¦ index #1 ¦ hmacPools[*cfg.Hash] ¦
-  --   why: Suite.Validate() ran first: hash in 0..2, digits in 4..10 (theorem C14_suite); user-defined Suite implementations are excluded by the property
-  (1, [111,116,112,46,100,101,114,105,118,101,82,70,67,54,50,56,55], [105,110,100,101,120], [104,109,97,99,80,111,111,108,115,91,42,99,102,103,46,72,97,115,104,93], []),
-  -- jswasm ¦ otp.deriveRFC6287 ¦ index #2 ¦ mod10[*cfg.Digits] ¦
-  --   why: Suite.Validate() ran first: hash in 0..2, digits in 4..10 (theorem C14_suite); user-defined Suite implementations are excluded by the property
-  (1, [111,116,112,46,100,101,114,105,118,101,82,70,67,54,50,56,55], [105,110,100,101,120], [109,111,100,49,48,91,42,99,102,103,46,68,105,103,105,116,115,93], []),
-  -- jswasm ¦ otp.formatDecimal ¦ makeslice #1 ¦ make(digits) ¦
-  --   why: length is a validated digit count / a constant size / a non-negative width
-  (1, [111,116,112,46,102,111,114,109,97,116,68,101,99,105,109,97,108], [109,97,107,101,115,108,105,99,101], [109,97,107,101,40,100,105,103,105,116,115,41], []),
-  -- jswasm ¦ otp.formatDecimal ¦ index #1 ¦ *ssa.MakeSlice[i] ¦ (i >= 0)
-  --   why: guarded: (i >= 0)
-  (1, [111,116,112,46,102,111,114,109,97,116,68,101,99,105,109,97,108], [105,110,100,101,120], [42,115,115,97,46,77,97,107,101,83,108,105,99,101,91,105,93], [[40,105,32,62,61,32,48,41]]),
-  -- jswasm ¦ otp.init$6 ¦ div #1 ¦ (Unix(t) / period) ¦
-  --   why: TimeCounterFunc: callers pass a non-zero period (GenerateTOTP/ValidateTOTP default 0 to 30; wasm checks period > 0)
-  (1, [111,116,112,46,105,110,105,116,36,54], [100,105,118], [40,85,110,105,120,40,116,41,32,47,32,112,101,114,105,111,100,41], []),
-  -- jswasm ¦ otp.longDigit ¦ makeslice #1 ¦ make(digits) ¦
-  --   why: length is a validated digit count / a constant size / a non-negative width
-  (1, [111,116,112,46,108,111,110,103,68,105,103,105,116], [109,97,107,101,115,108,105,99,101], [109,97,107,101,40,100,105,103,105,116,115,41], []),
-  -- jswasm ¦ otp.longDigit ¦ index #1 ¦ *ssa.MakeSlice[i] ¦ (i >= 0)
-  --   why: guarded: (i >= 0)
-  (1, [111,116,112,46,108,111,110,103,68,105,103,105,116], [105,110,100,101,120], [42,115,115,97,46,77,97,107,101,83,108,105,99,101,91,105,93], [[40,105,32,62,61,32,48,41]]),
-  -- jswasm ¦ otp.padBytes ¦ slice #1 ¦ input[:length] ¦ (len(input) >= length)
-  --   why: guarded: (len(input) >= length)
-  (1, [111,116,112,46,112,97,100,66,121,116,101,115], [115,108,105,99,101], [105,110,112,117,116,91,58,108,101,110,103,116,104,93], [[40,108,101,110,40,105,110,112,117,116,41,32,62,61,32,108,101,110,103,116,104,41]]),
-  -- jswasm ¦ otp.padBytes ¦ makeslice #1 ¦ make(length) ¦ !(len(input) >= length)
-  --   why: length is a validated digit count / a constant size / a non-negative width
-  (1, [111,116,112,46,112,97,100,66,121,116,101,115], [109,97,107,101,115,108,105,99,101], [109,97,107,101,40,108,101,110,103,116,104,41], [[33,40,108,101,110,40,105,110,112,117,116,41,32,62,61,32,108,101,110,103,116,104,41]]),
-  -- jswasm ¦ otp.parseCryptoFunction ¦ slice #1 ¦ crypto[5:] ¦
-  --   why: HasPrefix(ToUpper(crypto), "HOTP-SHA") holds on this path and the string is ASCII (checked in parseRawSuite), so len(crypto) >= 8
-  (1, [111,116,112,46,112,97,114,115,101,67,114,121,112,116,111,70,117,110,99,116,105,111,110], [115,108,105,99,101], [99,114,121,112,116,111,91,53,58,93], []),
-  -- jswasm ¦ otp.parseCryptoFunction ¦ index #1 ¦ Split(crypto[:],"-")[0] ¦ !(len(Split(crypto[:],"-")) != 2)
-  --   why: guarded: !(len(Split(crypto[:],"-")) != 2)
-  (1, [111,116,112,46,112,97,114,115,101,67,114,121,112,116,111,70,117,110,99,116,105,111,110], [105,110,100,101,120], [83,112,108,105,116,40,99,114,121,112,116,111,91,58,93,44,34,45,34,41,91,48,93], [[33,40,108,101,110,40,83,112,108,105,116,40,99,114,121,112,116,111,91,58,93,44,34,45,34,41,41,32,33,61,32,50,41]]),
-  -- jswasm ¦ otp.parseCryptoFunction ¦ index #2 ¦ Split(crypto[:],"-")[1] ¦ !(len(Split(crypto[:],"-")) != 2)
-  --   why: guarded: !(len(Split(crypto[:],"-")) != 2)
-  (1, [111,116,112,46,112,97,114,115,101,67,114,121,112,116,111,70,117,110,99,116,105,111,110], [105,110,100,101,120], [83,112,108,105,116,40,99,114,121,112,116,111,91,58,93,44,34,45,34,41,91,49,93], [[33,40,108,101,110,40,83,112,108,105,116,40,99,114,121,112,116,111,91,58,93,44,34,45,34,41,41,32,33,61,32,50,41]]),
-  -- jswasm ¦ otp.parseDataInputTokens ¦ index #1 ¦ Split(input,"-")[(rangeindex + 1)] ¦ ((rangeindex + 1) < len(Split(input,"-")))
-  --   why: guarded: ((rangeindex + 1) < len(Split(input,"-")))
-  (1, [111,116,112,46,112,97,114,115,101,68,97,116,97,73,110,112,117,116,84,111,107,101,110,115], [105,110,100,101,120], [83,112,108,105,116,40,105,110,112,117,116,44,34,45,34,41,91,40,114,97,110,103,101,105,110,100,101,120,32,43,32,49,41,93], [[40,40,114,97,110,103,101,105,110,100,101,120,32,43,32,49,41,32,60,32,108,101,110,40,83,112,108,105,116,40,105,110,112,117,116,44,34,45,34,41,41,41]]),
-  -- jswasm ¦ otp.parseDataInputTokens ¦ slice #1 ¦ ToUpper(*Split(input,"-")[(rangeindex + 1)])[2:] ¦ !(ToUpper(*Split(input,"-")[(rangeindex + 1)]) == "C") ; (len(ToUpper(*Split(input,"-")[(rangeindex + 1)])) == 4)
-  --   why: guarded: !(ToUpper(*Split(input,"-")[(rangeindex + 1)]) == "C") ; (len(ToUpper(*Split(input,"-")[(rangeindex + 1)])) == 4)
-  (1, [111,116,112,46,112,97,114,115,101,68,97,116,97,73,110,112,117,116,84,111,107,101,110,115], [115,108,105,99,101], [84,111,85,112,112,101,114,40,42,83,112,108,105,116,40,105,110,112,117,116,44,34,45,34,41,91,40,114,97,110,103,101,105,110,100,101,120,32,43,32,49,41,93,41,91,50,58,93], [[33,40,84,111,85,112,112,101,114,40,42,83,112,108,105,116,40,105,110,112,117,116,44,34,45,34,41,91,40,114,97,110,103,101,105,110,100,101,120,32,43,32,49,41,93,41,32,61,61,32,34,67,34,41], [40,108,101,110,40,84,111,85,112,112,101,114,40,42,83,112,108,105,116,40,105,110,112,117,116,44,34,45,34,41,91,40,114,97,110,103,101,105,110,100,101,120,32,43,32,49,41,93,41,41,32,61,61,32,52,41]]),
-  -- jswasm ¦ otp.parseDataInputTokens ¦ slice #2 ¦ *Split(input,"-")[(rangeindex + 1)][1:] ¦
-  --   why: the token was tested with HasPrefix / len on its upper-case form (ASCII, same length), so it is long enough for this constant bound
-  (1, [111,116,112,46,112,97,114,115,101,68,97,116,97,73,110,112,117,116,84,111,107,101,110,115], [115,108,105,99,101], [42,83,112,108,105,116,40,105,110,112,117,116,44,34,45,34,41,91,40,114,97,110,103,101,105,110,100,101,120,32,43,32,49,41,93,91,49,58,93], []),
-  -- jswasm ¦ otp.parseDataInputTokens ¦ slice #3 ¦ ToUpper(*Split(input,"-")[(rangeindex + 1)])[1:] ¦ !(ToUpper(*Split(input,"-")[(rangeindex + 1)]) == "C") ; (len(ToUpper(*Split(input,"-")[(rangeindex + 1)])) != 1)
-  --   why: guarded: !(ToUpper(*Split(input,"-")[(rangeindex + 1)]) == "C") ; (len(ToUpper(*Split(input,"-")[(rangeindex + 1)])) != 1)
-  (1, [111,116,112,46,112,97,114,115,101,68,97,116,97,73,110,112,117,116,84,111,107,101,110,115], [115,108,105,99,101], [84,111,85,112,112,101,114,40,42,83,112,108,105,116,40,105,110,112,117,116,44,34,45,34,41,91,40,114,97,110,103,101,105,110,100,101,120,32,43,32,49,41,93,41,91,49,58,93], [[33,40,84,111,85,112,112,101,114,40,42,83,112,108,105,116,40,105,110,112,117,116,44,34,45,34,41,91,40,114,97,110,103,101,105,110,100,101,120,32,43,32,49,41,93,41,32,61,61,32,34,67,34,41], [40,108,101,110,40,84,111,85,112,112,101,114,40,42,83,112,108,105,116,40,105,110,112,117,116,44,34,45,34,41,91,40,114,97,110,103,101,105,110,100,101,120,32,43,32,49,41,93,41,41,32,33,61,32,49,41]]),
-  -- jswasm ¦ otp.parseRawSuite ¦ index #1 ¦ raw[i] ¦ (i < len(raw))
-  --   why: guarded: (i < len(raw))
-  (1, [111,116,112,46,112,97,114,115,101,82,97,119,83,117,105,116,101], [105,110,100,101,120], [114,97,119,91,105,93], [[40,105,32,60,32,108,101,110,40,114,97,119,41,41]]),
-  -- jswasm ¦ otp.parseRawSuite ¦ index #2 ¦ Split(raw,":")[1] ¦ !(len(Split(raw,":")) != 3)
-  --   why: guarded: !(len(Split(raw,":")) != 3)
-  (1, [111,116,112,46,112,97,114,115,101,82,97,119,83,117,105,116,101], [105,110,100,101,120], [83,112,108,105,116,40,114,97,119,44,34,58,34,41,91,49,93], [[33,40,108,101,110,40,83,112,108,105,116,40,114,97,119,44,34,58,34,41,41,32,33,61,32,51,41]]),
-  -- jswasm ¦ otp.parseRawSuite ¦ index #3 ¦ Split(raw,":")[2] ¦ !(len(Split(raw,":")) != 3)
-  --   why: guarded: !(len(Split(raw,":")) != 3)
-  (1, [111,116,112,46,112,97,114,115,101,82,97,119,83,117,105,116,101], [105,110,100,101,120], [83,112,108,105,116,40,114,97,119,44,34,58,34,41,91,50,93], [[33,40,108,101,110,40,83,112,108,105,116,40,114,97,119,44,34,58,34,41,41,32,33,61,32,51,41]]),
-  -- jswasm ¦ otp.parseRawSuite ¦ index #4 ¦ Split(raw,":")[0] ¦ !(len(Split(raw,":")) != 3)
-  --   why: guarded: !(len(Split(raw,":")) != 3)
-  (1, [111,116,112,46,112,97,114,115,101,82,97,119,83,117,105,116,101], [105,110,100,101,120], [83,112,108,105,116,40,114,97,119,44,34,58,34,41,91,48,93], [[33,40,108,101,110,40,83,112,108,105,116,40,114,97,119,44,34,58,34,41,41,32,33,61,32,51,41]]),
-  -- jswasm ¦ otp.parseRawSuite ¦ index #5 ¦ Split(raw,":")[0] ¦ !(len(Split(raw,":")) != 3)
-  --   why: guarded: !(len(Split(raw,":")) != 3)
-  (1, [111,116,112,46,112,97,114,115,101,82,97,119,83,117,105,116,101], [105,110,100,101,120], [83,112,108,105,116,40,114,97,119,44,34,58,34,41,91,48,93], [[33,40,108,101,110,40,83,112,108,105,116,40,114,97,119,44,34,58,34,41,41,32,33,61,32,51,41]]),
-  -- jswasm ¦ otp.parseSuiteNumber ¦ index #1 ¦ s[i] ¦ !(len(s) == 0) ; !(len(s) > 3) ; (i < len(s))
-  --   why: guarded: !(len(s) == 0) ; !(len(s) > 3) ; (i < len(s))
-  (1, [111,116,112,46,112,97,114,115,101,83,117,105,116,101,78,117,109,98,101,114], [105,110,100,101,120], [115,91,105,93], [[33,40,108,101,110,40,115,41,32,61,61,32,48,41], [33,40,108,101,110,40,115,41,32,62,32,51,41], [40,105,32,60,32,108,101,110,40,115,41,41]]),
-  -- jswasm ¦ otp.parseSuiteNumber ¦ index #2 ¦ s[i] ¦ !(len(s) == 0) ; !(len(s) > 3) ; (i < len(s))
-  --   why: guarded: !(len(s) == 0) ; !(len(s) > 3) ; (i < len(s))
-  (1, [111,116,112,46,112,97,114,115,101,83,117,105,116,101,78,117,109,98,101,114], [105,110,100,101,120], [115,91,105,93], [[33,40,108,101,110,40,115,41,32,61,61,32,48,41], [33,40,108,101,110,40,115,41,32,62,32,51,41], [40,105,32,60,32,108,101,110,40,115,41,41]]),
-  -- jswasm ¦ otp.parseSuiteNumber ¦ index #3 ¦ s[i] ¦ !(len(s) == 0) ; !(len(s) > 3) ; (i < len(s))
-  --   why: guarded: !(len(s) == 0) ; !(len(s) > 3) ; (i < len(s))
-  (1, [111,116,112,46,112,97,114,115,101,83,117,105,116,101,78,117,109,98,101,114], [105,110,100,101,120], [115,91,105,93], [[33,40,108,101,110,40,115,41,32,61,61,32,48,41], [33,40,108,101,110,40,115,41,32,62,32,51,41], [40,105,32,60,32,108,101,110,40,115,41,41]]),
-  -- jswasm ¦ otp.parseTimeGranularity ¦ slice #1 ¦ g[:(len(g) - 1)] ¦ !(len(g) < 2)
-  --   why: guarded: !(len(g) < 2)
-  (1, [111,116,112,46,112,97,114,115,101,84,105,109,101,71,114,97,110,117,108,97,114,105,116,121], [115,108,105,99,101], [103,91,58,40,108,101,110,40,103,41,32,45,32,49,41,93], [[33,40,108,101,110,40,103,41,32,60,32,50,41]]),
-  -- jswasm ¦ otp.parseTimeGranularity ¦ index #1 ¦ g[(len(g) - 1)] ¦ !(len(g) < 2)
-  --   why: guarded: !(len(g) < 2)
-  (1, [111,116,112,46,112,97,114,115,101,84,105,109,101,71,114,97,110,117,108,97,114,105,116,121], [105,110,100,101,120], [103,91,40,108,101,110,40,103,41,32,45,32,49,41,93], [[33,40,108,101,110,40,103,41,32,60,32,50,41]]),
-  -- jswasm ¦ otp.shortDigit ¦ index #1 ¦ pad[i] ¦ (i >= 0)
-  --   why: called only with 1 <= digits <= 8 (deriveRFC4226: range check, then digits <= 8); i starts at digits-1 and decreases to 0
-  (1, [111,116,112,46,115,104,111,114,116,68,105,103,105,116], [105,110,100,101,120], [112,97,100,91,105,93], [[40,105,32,62,61,32,48,41]]),
-  -- jswasm ¦ otp.shortDigit ¦ index #2 ¦ pad[i] ¦ (i >= 0)
-  --   why: called only with 1 <= digits <= 8 (deriveRFC4226: range check, then digits <= 8); i starts at digits-1 and decreases to 0
-  (1, [111,116,112,46,115,104,111,114,116,68,105,103,105,116], [105,110,100,101,120], [112,97,100,91,105,93], [[40,105,32,62,61,32,48,41]]),
-  -- jswasm ¦ otp.shortDigit ¦ slice #1 ¦ pad[:digits] ¦
-  --   why: called only with 1 <= digits <= 8 (deriveRFC4226: range check, then digits <= 8); i starts at digits-1 and decreases to 0
-  (1, [111,116,112,46,115,104,111,114,116,68,105,103,105,116], [115,108,105,99,101], [112,97,100,91,58,100,105,103,105,116,115,93], []),
-  -- jswasm ¦ otp.truncate ¦ index #1 ¦ sum[(len(sum) - 1)] ¦
-  --   why: sum is an HMAC output (>= 20 bytes, offset <= 15); mod is a table entry 10^d > 0 (lemma truncate_eq / mod10_eq_pow)
-  (1, [111,116,112,46,116,114,117,110,99,97,116,101], [105,110,100,101,120], [115,117,109,91,40,108,101,110,40,115,117,109,41,32,45,32,49,41,93], []),
-  -- jswasm ¦ otp.truncate ¦ index #2 ¦ sum[(*sum[(len(sum) - 1)] & 15)] ¦
-  --   why: sum is an HMAC output (>= 20 bytes, offset <= 15); mod is a table entry 10^d > 0 (lemma truncate_eq / mod10_eq_pow)
-  (1, [111,116,112,46,116,114,117,110,99,97,116,101], [105,110,100,101,120], [115,117,109,91,40,42,115,117,109,91,40,108,101,110,40,115,117,109,41,32,45,32,49,41,93,32,38,32,49,53,41,93], []),
-  -- jswasm ¦ otp.truncate ¦ index #3 ¦ sum[((*sum[(len(sum) - 1)] & 15) + 1)] ¦
-  --   why: sum is an HMAC output (>= 20 bytes, offset <= 15); mod is a table entry 10^d > 0 (lemma truncate_eq / mod10_eq_pow)
-  (1, [111,116,112,46,116,114,117,110,99,97,116,101], [105,110,100,101,120], [115,117,109,91,40,40,42,115,117,109,91,40,108,101,110,40,115,117,109,41,32,45,32,49,41,93,32,38,32,49,53,41,32,43,32,49,41,93], []),
-  -- jswasm ¦ otp.truncate ¦ index #4 ¦ sum[((*sum[(len(sum) - 1)] & 15) + 2)] ¦
-  --   why: sum is an HMAC output (>= 20 bytes, offset <= 15); mod is a table entry 10^d > 0 (lemma truncate_eq / mod10_eq_pow)
-  (1, [111,116,112,46,116,114,117,110,99,97,116,101], [105,110,100,101,120], [115,117,109,91,40,40,42,115,117,109,91,40,108,101,110,40,115,117,109,41,32,45,32,49,41,93,32,38,32,49,53,41,32,43,32,50,41,93], []),
-  -- jswasm ¦ otp.truncate ¦ index #5 ¦ sum[((*sum[(len(sum) - 1)] & 15) + 3)] ¦
-  --   why: sum is an HMAC output (>= 20 bytes, offset <= 15); mod is a table entry 10^d > 0 (lemma truncate_eq / mod10_eq_pow)
-  (1, [111,116,112,46,116,114,117,110,99,97,116,101], [105,110,100,101,120], [115,117,109,91,40,40,42,115,117,109,91,40,108,101,110,40,115,117,109,41,32,45,32,49,41,93,32,38,32,49,53,41,32,43,32,51,41,93], []),
-  -- jswasm ¦ otp.truncate ¦ div #1 ¦ ((((((*sum[(*sum[(len(sum) - 1)] & 15)] << 24) | (*sum[((*sum[(len(sum) - 1)] & 15) + 1)] << 16)) | (*sum[((*sum[(len(sum) - 1)] & 15) + 2)] << 8)) | *sum[((*sum[(len(sum) - 1)] & 15) + 3)]) & 2147483647) % mod) ¦
-  --   why: sum is an HMAC output (>= 20 bytes, offset <= 15); mod is a table entry 10^d > 0 (lemma truncate_eq / mod10_eq_pow)
-  (1, [111,116,112,46,116,114,117,110,99,97,116,101], [100,105,118], [40,40,40,40,40,40,42,115,117,109,91,40,42,115,117,109,91,40,108,101,110,40,115,117,109,41,32,45,32,49,41,93,32,38,32,49,53,41,93,32,60,60,32,50,52,41,32,124,32,40,42,115,117,109,91,40,40,42,115,117,109,91,40,108,101,110,40,115,117,109,41,32,45,32,49,41,93,32,38,32,49,53,41,32,43,32,49,41,93,32,60,60,32,49,54,41,41,32,124,32,40,42,115,117,109,91,40,40,42,115,117,109,91,40,108,101,110,40,115,117,109,41,32,45,32,49,41,93,32,38,32,49,53,41,32,43,32,50,41,93,32,60,60,32,56,41,41,32,124,32,42,115,117,109,91,40,40,42,115,117,109,91,40,108,101,110,40,115,117,109,41,32,45,32,49,41,93,32,38,32,49,53,41,32,43,32,51,41,93,41,32,38,32,50,49,52,55,52,56,51,54,52,55,41,32,37,32,109,111,100,41], [])
+  ([111,116,112,46,100,101,114,105,118,101,82,70,67,54,50,56,55], [105,110,100,101,120]),
+  -- otp.formatDecimal ¦ makeslice
+  --   why: digits is a validated digit count (deriveRFC4226: 1..10; deriveRFC6287: Suite.Validate, 4..10)
+  ([111,116,112,46,102,111,114,109,97,116,68,101,99,105,109,97,108], [109,97,107,101,115,108,105,99,101]),
+  -- otp.longDigit ¦ makeslice
+  --   why: digits is a validated digit count (see formatDecimal)
+  ([111,116,112,46,108,111,110,103,68,105,103,105,116], [109,97,107,101,115,108,105,99,101]),
+  -- otp.TimeCounterFunc$func ¦ div
+  --   why: callers pass a non-zero period (GenerateTOTP / ValidateTOTP turn 0 into 30; the wasm binding checks period > 0; theorem C02/C04 models)
+  ([111,116,112,46,84,105,109,101,67,111,117,110,116,101,114,70,117,110,99,36,102,117,110,99], [100,105,118]),
+  -- otp.parseCryptoFunction ¦ slice
+  --   why: HasPrefix(ToUpper(crypto), "HOTP-SHA") holds on this path and the text is ASCII (checked in parseRawSuite), so len(crypto) >= 8
+  ([111,116,112,46,112,97,114,115,101,67,114,121,112,116,111,70,117,110,99,116,105,111,110], [115,108,105,99,101]),
+  -- otp.parseDataInputTokens ¦ slice
+  --   why: the token was tested with HasPrefix / len on its upper-case form (ASCII, same length), so it is long enough for the constant bound
+  ([111,116,112,46,112,97,114,115,101,68,97,116,97,73,110,112,117,116,84,111,107,101,110,115], [115,108,105,99,101]),
+  -- otp.shortDigit ¦ index
+  --   why: called only with 1 <= digits <= 8 (deriveRFC4226: range check, then digits <= 8); i starts at digits-1 and only decreases
+  ([111,116,112,46,115,104,111,114,116,68,105,103,105,116], [105,110,100,101,120]),
+  -- otp.shortDigit ¦ slice
+  --   why: called only with 1 <= digits <= 8 (see above); proved for the call sites when omega can see the guard
+  ([111,116,112,46,115,104,111,114,116,68,105,103,105,116], [115,108,105,99,101]),
+  -- otp.truncate ¦ div
+  --   why: mod is a table entry 10^d > 0 (lemma mod10_eq_pow) or pow10Wasm(d) > 0
+  ([111,116,112,46,116,114,117,110,99,97,116,101], [100,105,118]),
+  -- otp.truncate ¦ index
+  --   why: sum is an HMAC output (>= 20 bytes), the offset is masked to 0..15 (lemma truncate_eq)
+  ([111,116,112,46,116,114,117,110,99,97,116,101], [105,110,100,101,120]),
+  -- otp.truncate ¦ slice
+  --   why: sum is an HMAC output (>= 20 bytes), the offset is masked to 0..15
+  ([111,116,112,46,116,114,117,110,99,97,116,101], [115,108,105,99,101]),
+  -- otp.DeriveRFC4226Wasm ¦ makeslice
+  --   why: digits - len(s) is only evaluated when len(s) < digits (the padding branch)
+  ([111,116,112,46,68,101,114,105,118,101,82,70,67,52,50,50,54,87,97,115,109], [109,97,107,101,115,108,105,99,101]),
+  -- otp.DeriveRFC4226Wasm ¦ index
+  --   why: loop index of the padding loop, bounded by the loop condition
+  ([111,116,112,46,68,101,114,105,118,101,82,70,67,52,50,50,54,87,97,115,109], [105,110,100,101,120]),
+  -- otp.padBytes ¦ makeslice
+  --   why: length is one of the constants 8 / 128 at every call site
+  ([111,116,112,46,112,97,100,66,121,116,101,115], [109,97,107,101,115,108,105,99,101]),
+  -- otp.padBytes ¦ slice
+  --   why: length is one of the constants 8 / 128 at every call site and the branch guarantees len(input) >= length
+  ([111,116,112,46,112,97,100,66,121,116,101,115], [115,108,105,99,101])
 ]
 
 def justifiedStoreSites : List (Nat × List Nat × List Nat × List Nat × List (List Nat)) := [
-  -- native ¦ otp.padBytes ¦ return param:input #1 ¦ input[:] ¦
-  --   why: unexported; the returned prefix of the input is only read (appended into the pooled message buffer) by deriveRFC6287
-  (0, [111,116,112,46,112,97,100,66,121,116,101,115], [114,101,116,117,114,110,32,112,97,114,97,109,58,105,110,112,117,116], [105,110,112,117,116,91,58,93], []),
-  -- native ¦ otp.parseDataInputTokens ¦ store param:cfg #1 ¦ cfg.IncludeCounter ¦
-  --   why: unexported; its only caller parseRawSuite passes the address of a local SuiteConfig
-  (0, [111,116,112,46,112,97,114,115,101,68,97,116,97,73,110,112,117,116,84,111,107,101,110,115], [115,116,111,114,101,32,112,97,114,97,109,58,99,102,103], [99,102,103,46,73,110,99,108,117,100,101,67,111,117,110,116,101,114], []),
-  -- native ¦ otp.parseDataInputTokens ¦ store param:cfg #2 ¦ cfg.IncludeChallenge ¦
-  --   why: unexported; its only caller parseRawSuite passes the address of a local SuiteConfig
-  (0, [111,116,112,46,112,97,114,115,101,68,97,116,97,73,110,112,117,116,84,111,107,101,110,115], [115,116,111,114,101,32,112,97,114,97,109,58,99,102,103], [99,102,103,46,73,110,99,108,117,100,101,67,104,97,108,108,101,110,103,101], []),
-  -- native ¦ otp.parseDataInputTokens ¦ store param:cfg #3 ¦ cfg.IncludeChallenge ¦
-  --   why: unexported; its only caller parseRawSuite passes the address of a local SuiteConfig
-  (0, [111,116,112,46,112,97,114,115,101,68,97,116,97,73,110,112,117,116,84,111,107,101,110,115], [115,116,111,114,101,32,112,97,114,97,109,58,99,102,103], [99,102,103,46,73,110,99,108,117,100,101,67,104,97,108,108,101,110,103,101], []),
-  -- native ¦ otp.parseDataInputTokens ¦ store param:cfg #4 ¦ cfg.Challenge ¦
-  --   why: unexported; its only caller parseRawSuite passes the address of a local SuiteConfig
-  (0, [111,116,112,46,112,97,114,115,101,68,97,116,97,73,110,112,117,116,84,111,107,101,110,115], [115,116,111,114,101,32,112,97,114,97,109,58,99,102,103], [99,102,103,46,67,104,97,108,108,101,110,103,101], []),
-  -- native ¦ otp.parseDataInputTokens ¦ store param:cfg #5 ¦ cfg.Challenge ¦
-  --   why: unexported; its only caller parseRawSuite passes the address of a local SuiteConfig
-  (0, [111,116,112,46,112,97,114,115,101,68,97,116,97,73,110,112,117,116,84,111,107,101,110,115], [115,116,111,114,101,32,112,97,114,97,109,58,99,102,103], [99,102,103,46,67,104,97,108,108,101,110,103,101], []),
-  -- native ¦ otp.parseDataInputTokens ¦ store param:cfg #6 ¦ cfg.IncludeChallenge ¦
-  --   why: unexported; its only caller parseRawSuite passes the address of a local SuiteConfig
-  (0, [111,116,112,46,112,97,114,115,101,68,97,116,97,73,110,112,117,116,84,111,107,101,110,115], [115,116,111,114,101,32,112,97,114,97,109,58,99,102,103], [99,102,103,46,73,110,99,108,117,100,101,67,104,97,108,108,101,110,103,101], []),
-  -- native ¦ otp.parseDataInputTokens ¦ store param:cfg #7 ¦ cfg.IncludePassword ¦
-  --   why: unexported; its only caller parseRawSuite passes the address of a local SuiteConfig
-  (0, [111,116,112,46,112,97,114,115,101,68,97,116,97,73,110,112,117,116,84,111,107,101,110,115], [115,116,111,114,101,32,112,97,114,97,109,58,99,102,103], [99,102,103,46,73,110,99,108,117,100,101,80,97,115,115,119,111,114,100], []),
-  -- native ¦ otp.parseDataInputTokens ¦ store param:cfg #8 ¦ cfg.IncludeTimestamp ¦
-  --   why: unexported; its only caller parseRawSuite passes the address of a local SuiteConfig
-  (0, [111,116,112,46,112,97,114,115,101,68,97,116,97,73,110,112,117,116,84,111,107,101,110,115], [115,116,111,114,101,32,112,97,114,97,109,58,99,102,103], [99,102,103,46,73,110,99,108,117,100,101,84,105,109,101,115,116,97,109,112], []),
-  -- native ¦ otp.parseDataInputTokens ¦ store param:cfg #9 ¦ cfg.PasswordHash ¦
-  --   why: unexported; its only caller parseRawSuite passes the address of a local SuiteConfig
-  (0, [111,116,112,46,112,97,114,115,101,68,97,116,97,73,110,112,117,116,84,111,107,101,110,115], [115,116,111,114,101,32,112,97,114,97,109,58,99,102,103], [99,102,103,46,80,97,115,115,119,111,114,100,72,97,115,104], []),
-  -- native ¦ otp.parseDataInputTokens ¦ store param:cfg #10 ¦ cfg.PasswordHash ¦
-  --   why: unexported; its only caller parseRawSuite passes the address of a local SuiteConfig
-  (0, [111,116,112,46,112,97,114,115,101,68,97,116,97,73,110,112,117,116,84,111,107,101,110,115], [115,116,111,114,101,32,112,97,114,97,109,58,99,102,103], [99,102,103,46,80,97,115,115,119,111,114,100,72,97,115,104], []),
-  -- native ¦ otp.parseDataInputTokens ¦ store param:cfg #11 ¦ cfg.PasswordHash ¦
-  --   why: unexported; its only caller parseRawSuite passes the address of a local SuiteConfig
-  (0, [111,116,112,46,112,97,114,115,101,68,97,116,97,73,110,112,117,116,84,111,107,101,110,115], [115,116,111,114,101,32,112,97,114,97,109,58,99,102,103], [99,102,103,46,80,97,115,115,119,111,114,100,72,97,115,104], []),
-  -- native ¦ otp.parseDataInputTokens ¦ store param:cfg #12 ¦ cfg.TimeStep ¦
-  --   why: unexported; its only caller parseRawSuite passes the address of a local SuiteConfig
-  (0, [111,116,112,46,112,97,114,115,101,68,97,116,97,73,110,112,117,116,84,111,107,101,110,115], [115,116,111,114,101,32,112,97,114,97,109,58,99,102,103], [99,102,103,46,84,105,109,101,83,116,101,112], []),
-  -- native ¦ otp.parseDataInputTokens ¦ store param:cfg #13 ¦ cfg.IncludeSession ¦
-  --   why: unexported; its only caller parseRawSuite passes the address of a local SuiteConfig
-  (0, [111,116,112,46,112,97,114,115,101,68,97,116,97,73,110,112,117,116,84,111,107,101,110,115], [115,116,111,114,101,32,112,97,114,97,109,58,99,102,103], [99,102,103,46,73,110,99,108,117,100,101,83,101,115,115,105,111,110], []),
-  -- jswasm ¦ otp.padBytes ¦ return param:input #1 ¦ input[:] ¦
-  --   why: unexported; the returned prefix of the input is only read (appended into the pooled message buffer) by deriveRFC6287
-  (1, [111,116,112,46,112,97,100,66,121,116,101,115], [114,101,116,117,114,110,32,112,97,114,97,109,58,105,110,112,117,116], [105,110,112,117,116,91,58,93], []),
-  -- jswasm ¦ otp.parseDataInputTokens ¦ store param:cfg #1 ¦ cfg.IncludeCounter ¦
-  --   why: unexported; its only caller parseRawSuite passes the address of a local SuiteConfig
-  (1, [111,116,112,46,112,97,114,115,101,68,97,116,97,73,110,112,117,116,84,111,107,101,110,115], [115,116,111,114,101,32,112,97,114,97,109,58,99,102,103], [99,102,103,46,73,110,99,108,117,100,101,67,111,117,110,116,101,114], []),
-  -- jswasm ¦ otp.parseDataInputTokens ¦ store param:cfg #2 ¦ cfg.IncludeChallenge ¦
-  --   why: unexported; its only caller parseRawSuite passes the address of a local SuiteConfig
-  (1, [111,116,112,46,112,97,114,115,101,68,97,116,97,73,110,112,117,116,84,111,107,101,110,115], [115,116,111,114,101,32,112,97,114,97,109,58,99,102,103], [99,102,103,46,73,110,99,108,117,100,101,67,104,97,108,108,101,110,103,101], []),
-  -- jswasm ¦ otp.parseDataInputTokens ¦ store param:cfg #3 ¦ cfg.IncludeChallenge ¦
-  --   why: unexported; its only caller parseRawSuite passes the address of a local SuiteConfig
-  (1, [111,116,112,46,112,97,114,115,101,68,97,116,97,73,110,112,117,116,84,111,107,101,110,115], [115,116,111,114,101,32,112,97,114,97,109,58,99,102,103], [99,102,103,46,73,110,99,108,117,100,101,67,104,97,108,108,101,110,103,101], []),
-  -- jswasm ¦ otp.parseDataInputTokens ¦ store param:cfg #4 ¦ cfg.Challenge ¦
-  --   why: unexported; its only caller parseRawSuite passes the address of a local SuiteConfig
-  (1, [111,116,112,46,112,97,114,115,101,68,97,116,97,73,110,112,117,116,84,111,107,101,110,115], [115,116,111,114,101,32,112,97,114,97,109,58,99,102,103], [99,102,103,46,67,104,97,108,108,101,110,103,101], []),
-  -- jswasm ¦ otp.parseDataInputTokens ¦ store param:cfg #5 ¦ cfg.Challenge ¦
-  --   why: unexported; its only caller parseRawSuite passes the address of a local SuiteConfig
-  (1, [111,116,112,46,112,97,114,115,101,68,97,116,97,73,110,112,117,116,84,111,107,101,110,115], [115,116,111,114,101,32,112,97,114,97,109,58,99,102,103], [99,102,103,46,67,104,97,108,108,101,110,103,101], []),
-  -- jswasm ¦ otp.parseDataInputTokens ¦ store param:cfg #6 ¦ cfg.IncludeChallenge ¦
-  --   why: unexported; its only caller parseRawSuite passes the address of a local SuiteConfig
-  (1, [111,116,112,46,112,97,114,115,101,68,97,116,97,73,110,112,117,116,84,111,107,101,110,115], [115,116,111,114,101,32,112,97,114,97,109,58,99,102,103], [99,102,103,46,73,110,99,108,117,100,101,67,104,97,108,108,101,110,103,101], []),
-  -- jswasm ¦ otp.parseDataInputTokens ¦ store param:cfg #7 ¦ cfg.IncludePassword ¦
-  --   why: unexported; its only caller parseRawSuite passes the address of a local SuiteConfig
-  (1, [111,116,112,46,112,97,114,115,101,68,97,116,97,73,110,112,117,116,84,111,107,101,110,115], [115,116,111,114,101,32,112,97,114,97,109,58,99,102,103], [99,102,103,46,73,110,99,108,117,100,101,80,97,115,115,119,111,114,100], []),
-  -- jswasm ¦ otp.parseDataInputTokens ¦ store param:cfg #8 ¦ cfg.IncludeTimestamp ¦
-  --   why: unexported; its only caller parseRawSuite passes the address of a local SuiteConfig
-  (1, [111,116,112,46,112,97,114,115,101,68,97,116,97,73,110,112,117,116,84,111,107,101,110,115], [115,116,111,114,101,32,112,97,114,97,109,58,99,102,103], [99,102,103,46,73,110,99,108,117,100,101,84,105,109,101,115,116,97,109,112], []),
-  -- jswasm ¦ otp.parseDataInputTokens ¦ store param:cfg #9 ¦ cfg.PasswordHash ¦
-  --   why: unexported; its only caller parseRawSuite passes the address of a local SuiteConfig
-  (1, [111,116,112,46,112,97,114,115,101,68,97,116,97,73,110,112,117,116,84,111,107,101,110,115], [115,116,111,114,101,32,112,97,114,97,109,58,99,102,103], [99,102,103,46,80,97,115,115,119,111,114,100,72,97,115,104], []),
-  -- jswasm ¦ otp.parseDataInputTokens ¦ store param:cfg #10 ¦ cfg.PasswordHash ¦
-  --   why: unexported; its only caller parseRawSuite passes the address of a local SuiteConfig
-  (1, [111,116,112,46,112,97,114,115,101,68,97,116,97,73,110,112,117,116,84,111,107,101,110,115], [115,116,111,114,101,32,112,97,114,97,109,58,99,102,103], [99,102,103,46,80,97,115,115,119,111,114,100,72,97,115,104], []),
-  -- jswasm ¦ otp.parseDataInputTokens ¦ store param:cfg #11 ¦ cfg.PasswordHash ¦
-  --   why: unexported; its only caller parseRawSuite passes the address of a local SuiteConfig
-  (1, [111,116,112,46,112,97,114,115,101,68,97,116,97,73,110,112,117,116,84,111,107,101,110,115], [115,116,111,114,101,32,112,97,114,97,109,58,99,102,103], [99,102,103,46,80,97,115,115,119,111,114,100,72,97,115,104], []),
-  -- jswasm ¦ otp.parseDataInputTokens ¦ store param:cfg #12 ¦ cfg.TimeStep ¦
-  --   why: unexported; its only caller parseRawSuite passes the address of a local SuiteConfig
-  (1, [111,116,112,46,112,97,114,115,101,68,97,116,97,73,110,112,117,116,84,111,107,101,110,115], [115,116,111,114,101,32,112,97,114,97,109,58,99,102,103], [99,102,103,46,84,105,109,101,83,116,101,112], []),
-  -- jswasm ¦ otp.parseDataInputTokens ¦ store param:cfg #13 ¦ cfg.IncludeSession ¦
-  --   why: unexported; its only caller parseRawSuite passes the address of a local SuiteConfig
-  (1, [111,116,112,46,112,97,114,115,101,68,97,116,97,73,110,112,117,116,84,111,107,101,110,115], [115,116,111,114,101,32,112,97,114,97,109,58,99,102,103], [99,102,103,46,73,110,99,108,117,100,101,83,101,115,115,105,111,110], []),
-  -- jswasm ¦ otp/wasm.recovered$1$1 ¦ store freevar:result #1 ¦ result ¦
-  --   why: named result of the enclosing closure (a local of that call)
+  -- (*otp/internal/app/api.Server).Start ¦ store param:s ¦ *s.cancelFunc
+  --   why: the REST server records its own cancel function in its own receiver (not library code, not caller data of the library)
+  (0, [40,42,111,116,112,47,105,110,116,101,114,110,97,108,47,97,112,112,47,97,112,105,46,83,101,114,118,101,114,41,46,83,116,97,114,116], [115,116,111,114,101,32,112,97,114,97,109,58,115], [42,115,46,99,97,110,99,101,108,70,117,110,99], []),
+  -- otp/wasm.recovered$1$1 ¦ store freevar:result ¦ result
+  --   why: the recover wrapper of the wasm binding assigns its own named result
   (1, [111,116,112,47,119,97,115,109,46,114,101,99,111,118,101,114,101,100,36,49,36,49], [115,116,111,114,101,32,102,114,101,101,118,97,114,58,114,101,115,117,108,116], [114,101,115,117,108,116], [])
-]
-
-/-- the pool protocol of each function that uses a sync.Pool, as reviewed -/
-def expectedPoolSites : List (Nat × List Nat × List Nat × List Nat × List (List Nat)) := [
-  -- native ¦ otp.deriveRFC4226 ¦ pool #1 ¦ Get rfc4226BufPool; reslice Get(rfc4226BufPool); pass-to binary.(bigEndian).PutUint64 Get(rfc4226BufPool)[:]; defer Put rfc4226BufPool; reslice Get(rfc4226BufPool); pass-to (hash.Hash).Write Get(rfc4226BufPool)[:] ¦
-  (0, [111,116,112,46,100,101,114,105,118,101,82,70,67,52,50,50,54], [112,111,111,108], [71,101,116,32,114,102,99,52,50,50,54,66,117,102,80,111,111,108,59,32,114,101,115,108,105,99,101,32,71,101,116,40,114,102,99,52,50,50,54,66,117,102,80,111,111,108,41,59,32,112,97,115,115,45,116,111,32,98,105,110,97,114,121,46,40,98,105,103,69,110,100,105,97,110,41,46,80,117,116,85,105,110,116,54,52,32,71,101,116,40,114,102,99,52,50,50,54,66,117,102,80,111,111,108,41,91,58,93,59,32,100,101,102,101,114,32,80,117,116,32,114,102,99,52,50,50,54,66,117,102,80,111,111,108,59,32,114,101,115,108,105,99,101,32,71,101,116,40,114,102,99,52,50,50,54,66,117,102,80,111,111,108,41,59,32,112,97,115,115,45,116,111,32,40,104,97,115,104,46,72,97,115,104,41,46,87,114,105,116,101,32,71,101,116,40,114,102,99,52,50,50,54,66,117,102,80,111,111,108,41,91,58,93], []),
-  -- native ¦ otp.deriveRFC6287 ¦ pool #1 ¦ Get rfc6287BufPool; defer Put rfc6287BufPool; reslice *Get(rfc6287BufPool); append into *Get(rfc6287BufPool)[:]; pass-to builtin.append *Get(rfc6287BufPool)[:]; append into append(*Get(rfc6287BufPool)[:],*cfg.Raw); pass-to builtin.append append(*Get(rfc6287BufPool)[:],*cfg.Raw); append into append(append(*Get(rfc6287BufPool)[:],*cfg.Raw),varargs[:]); pass-to builtin.append append(append(*Get(rfc6287BufPool)[:],*cfg.Raw),varargs[:]); append into msg; pass-to builtin.append msg; append into msg; pass-to builtin.append msg; append into msg; pass-to builtin.append msg; append into msg; pass-to builtin.append msg; pass-to (hash.Hash).Write msg ¦
-  (0, [111,116,112,46,100,101,114,105,118,101,82,70,67,54,50,56,55], [112,111,111,108], [71,101,116,32,114,102,99,54,50,56,55,66,117,102,80,111,111,108,59,32,100,101,102,101,114,32,80,117,116,32,114,102,99,54,50,56,55,66,117,102,80,111,111,108,59,32,114,101,115,108,105,99,101,32,42,71,101,116,40,114,102,99,54,50,56,55,66,117,102,80,111,111,108,41,59,32,97,112,112,101,110,100,32,105,110,116,111,32,42,71,101,116,40,114,102,99,54,50,56,55,66,117,102,80,111,111,108,41,91,58,93,59,32,112,97,115,115,45,116,111,32,98,117,105,108,116,105,110,46,97,112,112,101,110,100,32,42,71,101,116,40,114,102,99,54,50,56,55,66,117,102,80,111,111,108,41,91,58,93,59,32,97,112,112,101,110,100,32,105,110,116,111,32,97,112,112,101,110,100,40,42,71,101,116,40,114,102,99,54,50,56,55,66,117,102,80,111,111,108,41,91,58,93,44,42,99,102,103,46,82,97,119,41,59,32,112,97,115,115,45,116,111,32,98,117,105,108,116,105,110,46,97,112,112,101,110,100,32,97,112,112,101,110,100,40,42,71,101,116,40,114,102,99,54,50,56,55,66,117,102,80,111,111,108,41,91,58,93,44,42,99,102,103,46,82,97,119,41,59,32,97,112,112,101,110,100,32,105,110,116,111,32,97,112,112,101,110,100,40,97,112,112,101,110,100,40,42,71,101,116,40,114,102,99,54,50,56,55,66,117,102,80,111,111,108,41,91,58,93,44,42,99,102,103,46,82,97,119,41,44,118,97,114,97,114,103,115,91,58,93,41,59,32,112,97,115,115,45,116,111,32,98,117,105,108,116,105,110,46,97,112,112,101,110,100,32,97,112,112,101,110,100,40,97,112,112,101,110,100,40,42,71,101,116,40,114,102,99,54,50,56,55,66,117,102,80,111,111,108,41,91,58,93,44,42,99,102,103,46,82,97,119,41,44,118,97,114,97,114,103,115,91,58,93,41,59,32,97,112,112,101,110,100,32,105,110,116,111,32,109,115,103,59,32,112,97,115,115,45,116,111,32,98,117,105,108,116,105,110,46,97,112,112,101,110,100,32,109,115,103,59,32,97,112,112,101,110,100,32,105,110,116,111,32,109,115,103,59,32,112,97,115,115,45,116,111,32,98,117,105,108,116,105,110,46,97,112,112,101,110,100,32,109,115,103,59,32,97,112,112,101,110,100,32,105,110,116,111,32,109,115,103,59,32,112,97,115,115,45,116,111,32,98,117,105,108,116,105,110,46,97,112,112,101,110,100,32,109,115,103,59,32,97,112,112,101,110,100,32,105,110,116,111,32,109,115,103,59,32,112,97,115,115,45,116,111,32,98,117,105,108,116,105,110,46,97,112,112,101,110,100,32,109,115,103,59,32,112,97,115,115,45,116,111,32,40,104,97,115,104,46,72,97,115,104,41,46,87,114,105,116,101,32,109,115,103], []),
-  -- jswasm ¦ otp.deriveRFC4226 ¦ pool #1 ¦ Get rfc4226BufPool; reslice Get(rfc4226BufPool); pass-to binary.(bigEndian).PutUint64 Get(rfc4226BufPool)[:]; defer Put rfc4226BufPool; reslice Get(rfc4226BufPool); pass-to (hash.Hash).Write Get(rfc4226BufPool)[:] ¦
-  (1, [111,116,112,46,100,101,114,105,118,101,82,70,67,52,50,50,54], [112,111,111,108], [71,101,116,32,114,102,99,52,50,50,54,66,117,102,80,111,111,108,59,32,114,101,115,108,105,99,101,32,71,101,116,40,114,102,99,52,50,50,54,66,117,102,80,111,111,108,41,59,32,112,97,115,115,45,116,111,32,98,105,110,97,114,121,46,40,98,105,103,69,110,100,105,97,110,41,46,80,117,116,85,105,110,116,54,52,32,71,101,116,40,114,102,99,52,50,50,54,66,117,102,80,111,111,108,41,91,58,93,59,32,100,101,102,101,114,32,80,117,116,32,114,102,99,52,50,50,54,66,117,102,80,111,111,108,59,32,114,101,115,108,105,99,101,32,71,101,116,40,114,102,99,52,50,50,54,66,117,102,80,111,111,108,41,59,32,112,97,115,115,45,116,111,32,40,104,97,115,104,46,72,97,115,104,41,46,87,114,105,116,101,32,71,101,116,40,114,102,99,52,50,50,54,66,117,102,80,111,111,108,41,91,58,93], []),
-  -- jswasm ¦ otp.deriveRFC6287 ¦ pool #1 ¦ Get rfc6287BufPool; defer Put rfc6287BufPool; reslice *Get(rfc6287BufPool); append into *Get(rfc6287BufPool)[:]; pass-to builtin.append *Get(rfc6287BufPool)[:]; append into append(*Get(rfc6287BufPool)[:],*cfg.Raw); pass-to builtin.append append(*Get(rfc6287BufPool)[:],*cfg.Raw); append into append(append(*Get(rfc6287BufPool)[:],*cfg.Raw),varargs[:]); pass-to builtin.append append(append(*Get(rfc6287BufPool)[:],*cfg.Raw),varargs[:]); append into msg; pass-to builtin.append msg; append into msg; pass-to builtin.append msg; append into msg; pass-to builtin.append msg; append into msg; pass-to builtin.append msg; pass-to (hash.Hash).Write msg ¦
-  (1, [111,116,112,46,100,101,114,105,118,101,82,70,67,54,50,56,55], [112,111,111,108], [71,101,116,32,114,102,99,54,50,56,55,66,117,102,80,111,111,108,59,32,100,101,102,101,114,32,80,117,116,32,114,102,99,54,50,56,55,66,117,102,80,111,111,108,59,32,114,101,115,108,105,99,101,32,42,71,101,116,40,114,102,99,54,50,56,55,66,117,102,80,111,111,108,41,59,32,97,112,112,101,110,100,32,105,110,116,111,32,42,71,101,116,40,114,102,99,54,50,56,55,66,117,102,80,111,111,108,41,91,58,93,59,32,112,97,115,115,45,116,111,32,98,117,105,108,116,105,110,46,97,112,112,101,110,100,32,42,71,101,116,40,114,102,99,54,50,56,55,66,117,102,80,111,111,108,41,91,58,93,59,32,97,112,112,101,110,100,32,105,110,116,111,32,97,112,112,101,110,100,40,42,71,101,116,40,114,102,99,54,50,56,55,66,117,102,80,111,111,108,41,91,58,93,44,42,99,102,103,46,82,97,119,41,59,32,112,97,115,115,45,116,111,32,98,117,105,108,116,105,110,46,97,112,112,101,110,100,32,97,112,112,101,110,100,40,42,71,101,116,40,114,102,99,54,50,56,55,66,117,102,80,111,111,108,41,91,58,93,44,42,99,102,103,46,82,97,119,41,59,32,97,112,112,101,110,100,32,105,110,116,111,32,97,112,112,101,110,100,40,97,112,112,101,110,100,40,42,71,101,116,40,114,102,99,54,50,56,55,66,117,102,80,111,111,108,41,91,58,93,44,42,99,102,103,46,82,97,119,41,44,118,97,114,97,114,103,115,91,58,93,41,59,32,112,97,115,115,45,116,111,32,98,117,105,108,116,105,110,46,97,112,112,101,110,100,32,97,112,112,101,110,100,40,97,112,112,101,110,100,40,42,71,101,116,40,114,102,99,54,50,56,55,66,117,102,80,111,111,108,41,91,58,93,44,42,99,102,103,46,82,97,119,41,44,118,97,114,97,114,103,115,91,58,93,41,59,32,97,112,112,101,110,100,32,105,110,116,111,32,109,115,103,59,32,112,97,115,115,45,116,111,32,98,117,105,108,116,105,110,46,97,112,112,101,110,100,32,109,115,103,59,32,97,112,112,101,110,100,32,105,110,116,111,32,109,115,103,59,32,112,97,115,115,45,116,111,32,98,117,105,108,116,105,110,46,97,112,112,101,110,100,32,109,115,103,59,32,97,112,112,101,110,100,32,105,110,116,111,32,109,115,103,59,32,112,97,115,115,45,116,111,32,98,117,105,108,116,105,110,46,97,112,112,101,110,100,32,109,115,103,59,32,97,112,112,101,110,100,32,105,110,116,111,32,109,115,103,59,32,112,97,115,115,45,116,111,32,98,117,105,108,116,105,110,46,97,112,112,101,110,100,32,109,115,103,59,32,112,97,115,115,45,116,111,32,40,104,97,115,104,46,72,97,115,104,41,46,87,114,105,116,101,32,109,115,103], [])
 ]
 
 end OtpVerif.Model
